@@ -364,10 +364,13 @@ start:
 		return
 	}
 
-	// If v.maxVersion(0) is non-negative, then we loaded API
-	// versions. If the version for this request is negative, we
-	// know the broker cannot handle this request.
-	if v.maxVersion(0) >= 0 && v.maxVersion(req.Key()) < 0 {
+	// If we have any versions, then we loaded API versions. If the
+	// version for this request is negative, we know the broker cannot
+	// handle this request. (We cannot key "loaded" on the broker
+	// advertising Produce: a controller-only listener advertises API
+	// versions without Produce, and requests it does not advertise must
+	// still fail here rather than be written.)
+	if len(v.maxVers) > 0 && v.maxVersion(req.Key()) < 0 {
 		pr.promise(nil, errBrokerTooOld)
 		return
 	}
